@@ -120,7 +120,51 @@ def make_spies(log):
         pass
 
     class SpyMALA(SpyMixin, E.MALA):
-        pass
+        def _spy_step(self, entry):
+            # the Langevin proposal and its Metropolis correction must be those of the conditional the sampler holds NOW: drift
+            # (scale/2) grad log pi(x) with the current conditional's gradient. Proposal learnt by a dry run (state restored),
+            # uniform placed at the reference acceptance probability times (1 +- 1e-6)
+            T = self.target
+            x = np.asarray(self.current_point, dtype=float).reshape(-1).copy()
+            n = len(x)
+            xi = np.random.randn(n)
+            sc = float(np.asarray(self.scale).reshape(-1)[0])
+            saved = self.get_state()
+            with patched_global(ScriptedRNG(normal=list(xi), uniform=[1e-300])):
+                super(SpyMixin, self).step()
+            xp = np.asarray(self.current_point, dtype=float).reshape(-1).copy()
+            self.set_state(saved)
+            with np.errstate(all="ignore"):
+                g_x = np.asarray(T.gradient(x), dtype=float).reshape(-1)
+                xp_ref = x + 0.5 * sc * g_x + np.sqrt(sc) * xi
+                lp_p = float(np.asarray(T.logd(xp_ref)).reshape(-1)[0])
+                lp_x = float(np.asarray(T.logd(x)).reshape(-1)[0])
+            moved = maxdiff(xp, x) > 0
+            usable = np.all(np.isfinite(xp_ref)) and np.isfinite(lp_x) and np.isfinite(lp_p)
+            if moved and usable:
+                entry["langevin"] = {"proposal_ok": bool(maxdiff(xp, xp_ref) <= 1e-9 * (1 + np.max(np.abs(xp_ref)))), "got": xp, "want": xp_ref}
+            undecidable = (not moved) or not usable
+            la = 0.0
+            if not undecidable:
+                with np.errstate(all="ignore"):
+                    g_p = np.asarray(T.gradient(xp), dtype=float).reshape(-1)
+                lq_back = -np.sum((x - xp - 0.5 * sc * g_p) ** 2) / (2 * sc)
+                lq_fwd = -np.sum((xp - x - 0.5 * sc * g_x) ** 2) / (2 * sc)
+                la = float(min(0.0, lp_p - lp_x + lq_back - lq_fwd))
+                undecidable = not np.isfinite(la)
+            alpha = float(np.exp(la)) if not undecidable else 1.0
+            type(self).decision_mode = (type(self).decision_mode + 1) % 2
+            delta = 1e-6
+            u = alpha * (1 + delta) if type(self).decision_mode else alpha * (1 - delta)
+            if not (0 < u < 1):
+                u = 0.5
+            expect = np.log(u) <= la
+            with patched_global(ScriptedRNG(normal=list(xi), uniform=[u])):
+                out = super(SpyMixin, self).step()
+            now = np.asarray(self.current_point, dtype=float).reshape(-1)
+            entry["mh"] = {"expect_accept": bool(expect), "accepted": bool(maxdiff(now, xp) <= 1e-12 * (1 + np.max(np.abs(xp))) and moved),
+                           "log_alpha": la, "log_u": float(np.log(u)), "tie": bool(undecidable or abs(np.log(u) - la) < 1e-9), "kernel": "MALA"}
+            return out
 
     return {"MH": SpyMH, "CWMH": SpyCWMH, "Conjugate": SpyConjugate, "LinearRTO": SpyLinearRTO, "MALA": SpyMALA, "PCN": SpyPCN}
 
@@ -203,6 +247,11 @@ def check_history(c, log, order, nsteps, init, stored, J, rec, what, sweeps_done
                 require(close(dt, dj, 1e-8), f"{what}: in sweep {sweep} block '{b}' was updated with a target that is not the joint conditioned on the "
                         "most recent values of the other blocks", target_diff=dt, joint_diff=dj, others={n: v for n, v in others.items()})
             for e in entries:
+                if "langevin" in e:
+                    require(e["langevin"]["proposal_ok"], f"{what}: the Langevin proposal of block '{b}' in sweep {sweep} does not use the gradient of the "
+                            "current conditional (stale cached gradient?)", got=e["langevin"]["got"], want=e["langevin"]["want"])
+                if "mh" in e:
+                    rec.count(f"decision_test:{e['mh'].get('kernel', 'MH')}:{'tie' if e['mh']['tie'] else 'decided'}")
                 if "mh" in e and not e["mh"]["tie"]:
                     require(e["mh"]["accepted"] == e["mh"]["expect_accept"],
                             f"{what}: an MH transition of block '{b}' in sweep {sweep} did not follow the Metropolis rule for the current conditional "
